@@ -633,7 +633,10 @@ func (ctx *actorContext) Children() []ActorRef {
 }
 
 func (ctx *actorContext) onRestart() {
-	ctx.status.Store(actorStatusRestarting)
+	// 仅存活中的 Actor 可以被重启，正在终止（或已在重启）的 Actor 忽略迟到的重启请求
+	if !ctx.status.CompareAndSwap(actorStatusAlive, actorStatusRestarting) {
+		return
+	}
 
 	ctx.processMessage(ctx.sender, ctx.ref, onRestarting, false)
 
